@@ -1,9 +1,10 @@
 (* C12 - layout and comments never change the result. *)
 From Coq Require Import String Ascii List Bool Arith.
-From Wrap Require Import Base.Str Syntax.Ast Inst.Model Parse.Peg Parse.Build Parse.Spec Parse.Layout Parse.LayoutModule.
+From Wrap Require Import Base.Str Syntax.Ast Inst.Model Parse.Peg Parse.Build Parse.Spec Parse.Layout Parse.Insert Parse.LayoutModule.
 From Wrap Require gen.Grammar.
 Import ListNotations.
 Open Scope string_scope.
+Open Scope list_scope.
 
 (* tie: the grammar regenerated from the live pyparsing objects is the one below; its two hand-modelled scanners
    (DEFAULT_ARG, the comment expression) are unchanged *)
@@ -27,6 +28,50 @@ Theorem C12_layout_independent : forall text text' k,
   parse_module spec_grammar text = parse_module spec_grammar text'.
 Proof. exact (parse_module_layout spec_grammar). Qed.
 Print Assumptions C12_layout_independent.
+
+
+(* Second step: one blank put between two adjacent solid characters x y.  The run in which every terminal that could
+   match across the pair aborts (a literal or keyword containing "xy", a word over both, a keyword starting at y after a
+   keyword character x, a keyword ending at x before a keyword character y; and, as before, defaults / #include /
+   two-word keywords) must answer; the text is free of '/' (comments are first turned into blanks by the first step). *)
+Theorem C12_insert_blank : forall text text' U x y V,
+  solid x = true -> solid y = true ->
+  expandtabs (chars_of text) = U ++ x :: y :: V ->
+  expandtabs (chars_of text') = U ++ x :: " "%char :: y :: V ->
+  no_slash (U ++ x :: y :: V) = true ->
+  strict_ins x y spec_grammar text <> NoFuel ->
+  parse_module spec_grammar text' <> Unsupported "fuel" ->
+  parse_module spec_grammar text = parse_module spec_grammar text'.
+Proof. exact (parse_module_insert spec_grammar). Qed.
+Print Assumptions C12_insert_blank.
+
+(* Re-layouts: every finite composition, in either direction, of "refill the gaps" and "open a gap" steps. *)
+Theorem C12_relayout : forall t t', relayout spec_grammar t t' -> parse_module spec_grammar t = parse_module spec_grammar t'.
+Proof. exact (relayout_same_parse spec_grammar). Qed.
+Print Assumptions C12_relayout.
+
+(* non-vacuity: from the tight spelling to a spaced and commented one in five steps *)
+Definition r0 : string := "void f(int x,K<A>y);".
+Definition r1 : string := "void f (int x,K<A>y);".
+Definition r2 : string := "void f ( int x,K<A>y);".
+Definition r3 : string := "void f ( int x, K<A>y);".
+Definition r4 : string := "void f ( int x, K<A> y);".
+Definition r5 : string := "void f ( /* (1) { */ int x,  // second
+    K<A>   y);".
+Ltac blank_step U x y V :=
+  apply (rl_blank spec_grammar _ _ U x y V); [reflexivity | reflexivity | reflexivity | reflexivity | reflexivity
+                                              | vm_compute; discriminate | vm_compute; discriminate].
+Example C12_relayout_nonvacuous : relayout spec_grammar r0 r5 /\ (exists ds, parse_module spec_grammar r5 = Ok ds /\ length ds = 1).
+Proof.
+  split.
+  - apply (rl_trans _ _ r1). { blank_step (chars_of "void ") "f"%char "("%char (chars_of "int x,K<A>y);"). }
+    apply (rl_trans _ _ r2). { blank_step (chars_of "void f ") "("%char "i"%char (chars_of "nt x,K<A>y);"). }
+    apply (rl_trans _ _ r3). { blank_step (chars_of "void f ( int x") ","%char "K"%char (chars_of "<A>y);"). }
+    apply (rl_trans _ _ r4). { blank_step (chars_of "void f ( int x, K<A") ">"%char "y"%char (chars_of ");"). }
+    apply (rl_fill spec_grammar r4 r5 (match skeleton r4 with Some k => k | None => [] end));
+      [vm_compute; reflexivity | vm_compute; reflexivity | vm_compute; discriminate | vm_compute; discriminate].
+  - eexists. split; vm_compute; reflexivity.
+Qed.
 
 (* the same for any grammar and any start expression, at the level of match trees *)
 Theorem C12_layout_independent_generic : forall g e s s' k f f', Skel s k -> Skel s' k ->
